@@ -231,6 +231,11 @@ def _generate(rng, tier):
         gen.features.add("defusing-callback")
     if embedded:
         scenario["embedded"] = True
+        if rng.random() < 0.2:
+            # the environment is entered after the native simulation has run for a while - past
+            # its own initial time (0.5 and 8 lie apart from every sum of the processes' delays)
+            scenario["enter_late"] = rng.choice([0.5 + 2 ** -12, 8 + 2 ** -12])
+            gen.features.add("entered-late")
         # the environment must outlive the native activities that use its events
         processes.append({"name": "keeper", "ops": [{"op": "timeout", "d": 1024}]})
     r = rng.random()
